@@ -108,7 +108,8 @@ MoreRays == {<<<<0 - 1, 4, 8>>, 9>>, <<<<6, 0 - 2, 0 - 3>>, 7>>, <<<<3, 4, 12>>,
              <<<<0 - 2, 0 - 1, 2>>, 3>>, <<<<6, 6, 7>>, 11>>, <<<<0, 0 - 5, 12>>, 13>>}
 Rays == IF Stride = 1 THEN BaseRays \cup MoreRays ELSE BaseRays
 Dirs == {<<<<1, 1>>, <<0, 1>>, <<0, 1>>>>, <<<<0, 1>>, <<1, 1>>, <<0, 1>>>>, <<<<0, 1>>, <<0, 1>>, <<1, 1>>>>, <<<<1, 1>>, <<0 - 2, 1>>, <<1, 2>>>>}
-AllCases == [ray : Rays, dir : Dirs]
+\* the four fixed directions, and the direction of the ray itself (the rate of a rotation about a fixed axis)
+AllCases == [ray : Rays, dir : Dirs] \cup {[ray |-> r, dir |-> <<<<r[1][1], 1>>, <<r[1][2], 1>>, <<r[1][3], 1>>>>] : r \in Rays}
 Cases == AllCases
 Proj(m) == [Exp |-> m.Exp, T |-> m.T, Tinv |-> m.Tinv]
 Init == /\ case \in Cases
